@@ -289,6 +289,7 @@ func runAfterAbort(t *kernel.Tape, opt core.Opts) *core.Outcome {
 	o := &core.Outcome{}
 	g := GenOpts{Modes: []int{ModeWorkflow, ModeWorkflow, ModeDAG, ModePregel}, MaxNodes: 6, Depth: 1, Cycles: true, Yields: 3, Parallelism: true}
 	p := Generate(t, g)
+	maybeAnyTypes(t, p)
 	ls := lambdas(p, "")
 	in := M{"in": fmt.Sprintf("x%d", t.Plan(3))}
 	mr := RunModel(p, in) // fault-free
